@@ -173,6 +173,8 @@ class Family:
             if fl == "annotated-sub":
                 src += f"class {n}_Strategy({n}_Base):\n    pass\n"
             src += f"{n}_S = {n}_Strategy()\n"
+        # a stand-alone parser for one-way ({'deserialize': ...}) registrations on a field
+        src += f"def {n}_DE(value):\n    return {plain_de}\n"
         return src
 
     def boxed_in(self, t):
@@ -236,8 +238,8 @@ class Family:
             if f.get("raw"):
                 continue
             names = self.boxed_in(f["t"])
-            if names and "serialization_strategy" not in (f.get("meta") or {}):
-                need.update(names)
+            if names and ("serialization_strategy" not in (f.get("meta") or {}) or f.get("boxed_de")):
+                need.update(names)         # (a one-way field registration leaves serialization to the Config level)
         if need:
             cfg = dict(d.get("config") or {})
             cfg["serialization_strategy"] = "{" + ", ".join(f"{n}: {n}_S" for n in sorted(need)) + "}"
